@@ -49,3 +49,102 @@ def freespace_value_rules(run, db, rule):
                       '%s: %s' % (label, bad), f.loc())
             n_ok += not bad
     return n_ok
+
+
+def unitarity_decided(db):
+    """(instances of inverse / energy identities decided on values, findings) for this tree, computed once per DB"""
+    cached = getattr(db, '_c02_unitarity', None)
+    if cached is None:
+        from ..core.report import Run
+        quiet = Run('C02', 'quick', '')
+        try:
+            n = unitarity_value_rules(quiet, db)
+            cached = (n, len(quiet.findings))
+        except AnalysisError:
+            cached = (0, 0)
+        db._c02_unitarity = cached
+    return cached
+
+
+def defer_to_unitarity(run, db, what, err, credits=()):
+    """The reading of focus / unfocus (one FFT with norm='ortho', shift typestate through both legs) defers to the identities on values
+    when it cannot read this organisation: unfocus(focus(f, Q), 1) == pad(f, Q), focus(unfocus(f, Q), 1) == pad(f, Q) and
+    sum |focus(f, Q)|^2 == sum |f|^2 in symbolic samples, even and odd lengths."""
+    n, bad = unitarity_decided(db)
+    if not n or bad:
+        return False
+    run.info('%s does not read this organisation of the FFT propagators (%s); inverse and energy identities were decided on values (%d instances)' % (what, str(err)[:140], n))
+    for rule, k in credits:
+        run.credit(rule, k, '%s refused; decided on values' % what)
+    return True
+
+
+def unitarity_value_rules(run, db, rule='C02.ortho'):
+    """inverses and energy on values (symbolic complex samples, exact small DFTs): unfocus(focus(f, Q), 1) is f zero-padded by Q and
+    sum |focus(f, Q)|^2 == sum |f|^2; idft2(dft2(f, 1, shape), 1, shape) == f and the same through the chirp-Z executor"""
+    from ..core.interp import Obj
+    from ..domains.filedom import DType
+    FT = 'prysm.fttools.'
+    n_ok = 0
+
+    def field(dom, shape):
+        return FArr.of(shape, [dom.lift(dom.rat(dom.sym('a%d%d' % (i, j))) + dom.R.I * dom.rat(dom.sym('b%d%d' % (i, j)))) for i in range(shape[0]) for j in range(shape[1])], DType('c', 16))
+
+    def one(it, f, label, self_obj=None, **kw):
+        res = it.run(f, kwargs=lambda: dict(kw), self_obj=self_obj)
+        rets = [p for p in res if p.outcome == 'return']
+        if len(rets) != len(res) or len(rets) != 1 or not isinstance(rets[0].value, FArr):
+            raise AnalysisError('%s: expected one returning path with an array that is followed' % label)
+        return rets[0].value
+    ffo, fun, fpad = db.func(P + 'focus'), db.func(P + 'unfocus'), db.func('prysm.fttools.pad2d')
+    for shape, Q in (((2, 2), 2), ((3, 2), 1), ((1, 3), 2), ((3, 3), 2), ((2, 1), 2)):
+        it, dom = file_interp(db)
+        label = 'focus / unfocus, %dx%d field, Q=%d' % (shape[0], shape[1], Q)
+        F = one(it, ffo, label, wavefunction=field(dom, shape), Q=Const(Q))
+        back = one(it, fun, label, wavefunction=F, Q=Const(1))
+        ref = one(it, fpad, label, array=field(dom, shape), Q=Const(Q)) if Q != 1 else field(dom, shape)
+        rb, rr = [dom.rat(c) for c in back.values()], [dom.rat(c) for c in ref.values()]
+        if any(c is None for c in rb + rr):
+            raise AnalysisError('%s: a sample is not followed' % label)
+        ok = tuple(back.shape) == tuple(ref.shape) and all(x == y for x, y in zip(rb, rr))
+        k = next((i for i, (x, y) in enumerate(zip(rb, rr)) if not (x == y)), 0)
+        run.check(ok, rule, fun.qual, 'inverse on values', '%s: unfocus(focus(f, Q), 1) is f zero-padded by Q, sample by sample' % label,
+                  '%s: unfocus(focus(f, Q), 1) has %s at flat position %d where the padded field has %s' % (label, rb[k].key()[:100] if ok is False and k < len(rb) else '?', k, rr[k].key()[:60] if k < len(rr) else '?'), fun.loc())
+        n_ok += ok
+        G = one(it, fun, label, wavefunction=field(dom, shape), Q=Const(Q))
+        back2 = one(it, ffo, label, wavefunction=G, Q=Const(1))
+        rb2 = [dom.rat(c) for c in back2.values()]
+        if any(c is None for c in rb2):
+            raise AnalysisError('%s: a sample is not followed' % label)
+        ok2 = tuple(back2.shape) == tuple(ref.shape) and all(x == y for x, y in zip(rb2, rr))
+        k = next((i for i, (x, y) in enumerate(zip(rb2, rr)) if not (x == y)), 0)
+        run.check(ok2, rule, ffo.qual, 'inverse on values (other order)', '%s: focus(unfocus(f, Q), 1) is f zero-padded by Q, sample by sample' % label,
+                  '%s: focus(unfocus(f, Q), 1) has %s at flat position %d where the padded field has %s' % (label, rb2[k].key()[:100] if k < len(rb2) else '?', k, rr[k].key()[:60] if k < len(rr) else '?'), ffo.loc())
+        n_ok += ok2
+        e_out = sum((dom.rat(c) * dom.rat(c).conj() for c in F.values()), Rat(dom.R.const(0)))
+        e_in = sum((dom.rat(c) * dom.rat(c).conj() for c in field(dom, shape).values()), Rat(dom.R.const(0)))
+        run.check(e_out == e_in, rule, ffo.qual, 'energy on values', '%s: sum |focus(f, Q)|^2 == sum |f|^2' % label,
+                  '%s: sum |focus(f, Q)|^2 - sum |f|^2 = %s, not 0' % (label, (e_out - e_in).key()[:160]), ffo.loc())
+        n_ok += (e_out == e_in)
+    for eng, fwd, inv in (('MatrixDFTExecutor', 'dft2', 'idft2'), ('ChirpZTransformExecutor', 'czt2', 'iczt2')):
+        ci = db.cls(FT + eng)
+        for shape in ((2, 2), (2, 1)):
+            it, dom = file_interp(db)
+
+            def mk():
+                o = Obj(ci)
+                it.call_funcinfo(db.method(ci, '__init__'), [], {}, o, None)
+                return o
+            label = '%s / %s, %dx%d field, Q=1, same number of samples' % (fwd, inv, shape[0], shape[1])
+            so = Tup([Const(shape[0]), Const(shape[1])])
+            F = one(it, db.func(FT + eng + '.' + fwd), label, self_obj=mk, ary=field(dom, shape), Q=Const(1), samples_out=so, shift=Tup([Const(0), Const(0)]))
+            back = one(it, db.func(FT + eng + '.' + inv), label, self_obj=mk, ary=F, Q=Const(1), samples_out=so, shift=Tup([Const(0), Const(0)]))
+            rb, rr = [dom.rat(c) for c in back.values()], [dom.rat(c) for c in field(dom, shape).values()]
+            if any(c is None for c in rb):
+                raise AnalysisError('%s: a sample is not followed' % label)
+            ok = tuple(back.shape) == tuple(shape) and all(x == y for x, y in zip(rb, rr))
+            k = next((i for i, (x, y) in enumerate(zip(rb, rr)) if not (x == y)), 0)
+            run.check(ok, rule, FT + eng + '.' + inv, 'inverse on values', '%s: the inverse of the forward transform is the field' % label,
+                      '%s: %s(%s(f)) has %s at flat position %d where f has %s' % (label, inv, fwd, rb[k].key()[:100] if k < len(rb) else '?', k, rr[k].key()[:40]), db.func(FT + eng + '.' + inv).loc())
+            n_ok += ok
+    return n_ok
